@@ -211,6 +211,14 @@ func runC06(c *Ctx) {
 				}
 				nAb++
 				_, ctxDone := c.GuardedB(b, EqNil(Invoke("context.Context.Err")), false)
+				if !ctxDone && len(ret.Results) == 1 && fn.Parent() != nil {
+					// in a per-source goroutine body (errgroup): 'return ctx.Err()' is nil — the other sources go on and the
+					// round is applied — unless the caller's context ended. (In the sequential loop the same statement
+					// abandons the round whatever it returns.)
+					if _, isErr := Match(Invoke("context.Context.Err"), c.RetX(ret, 0)); isErr {
+						ctxDone = true
+					}
+				}
 				c.Check(ctxDone, "C06.P1-abandon-only-when-cancelled", c.short(fn.String())+" › return on a source error", ret.Pos(), "a source error ends the round only on the ctx.Err() != nil edge", "the round is abandoned on a source's error without testing the caller's own context: one failing source keeps the other sources' newer records and new providers from being applied, while the refresh reports no error")
 			}
 		}
